@@ -53,6 +53,17 @@ def calc_id(statepoint):
     return m.hexdigest()
 
 
+def _ensure_thread_lock(collection):
+    """Register the thread lock of a synced collection if it has none.
+
+    Synced collections register their lock when they are constructed, so that
+    collections restored by unpickling in another process do not have one.
+    """
+    if collection is not None and type(collection)._supports_threading:
+        with type(collection)._cls_lock:
+            type(collection)._locks.setdefault(collection._lock_id, RLock())
+
+
 # Note: All children of _StatePointDict will be of its parent type because they
 # share a backend and the SyncedCollection registry parses the classes in order
 # of registration. _If_ we need more control over this, that process can be
@@ -1021,6 +1032,8 @@ class Job:
         # Locks are not pickleable and must be added back to the state
         state["_lock"] = RLock()
         self.__dict__.update(state)
+        _ensure_thread_lock(state.get("_statepoint"))
+        _ensure_thread_lock(state.get("_document"))
         # We append to a list of jobs rather than replacing to support
         # transparent id updates between shallow copies of a job.
         self.statepoint._jobs.append(self)
